@@ -1,6 +1,7 @@
 import DoltVerif.Lemmas.BigValuesVarint
 import DoltVerif.Lemmas.BigValuesBlob
 import DoltVerif.Lemmas.ValCodecBytes
+import DoltVerif.Lemmas.BigValuesWalk
 /-!
 C16 — Large TEXT, BLOB and JSON values are stored faithfully (partial).
 
@@ -218,8 +219,77 @@ def adaptive_compare_full : Prop :=
     compareAdaptive (if rx then .inl x else .oob (build cs x [])) (if ry then .inl y else .oob (build cs y []))
       = some (bytesCompare x y)
 
-/-- NOT PROVED: two out-of-band values whose trees have the same height compare like their
-contents (holds in every run of the harness) -/
+/-- the tree of a multi-chunk value under full reads -/
+theorem build_large (cs : Nat) (hs : 2 ≤ cs / addrLen) (x : Bytes) (hx : cs < x.length) :
+    build cs x [] = some ⟨topLevelOf cs x.length, cs / addrLen, leafChunks cs (x.length + 1) x []⟩ := by
+  have hc : 0 < cs := by
+    rcases Nat.eq_zero_or_pos cs with h | h
+    · subst h; simp at hs
+    · exact h
+  have hfl := leafChunks_flatten cs hc (x.length + 1) x [] (by omega) (fun s hs => by simp at hs)
+  unfold build buildWith
+  simp only []
+  rw [if_neg (by omega), if_neg (by omega)]
+  have hne : (leafChunks cs (x.length + 1) x []).isEmpty = false := by
+    cases h : leafChunks cs (x.length + 1) x [] with
+    | nil => rw [h] at hfl; simp at hfl; subst hfl; simp at hx
+    | cons a as => rfl
+  rw [hne]
+  simp only [Bool.false_eq_true, if_false]
+  rw [List.take_of_length_le (leaves_fit cs hs x _)]
+
+/-- **adaptive_compare (equal height 1)**: two out-of-band values of more than one chunk whose
+trees have height 1 — with the production chunk size: 4001 … 799 999 bytes, i.e. every multi-chunk
+TEXT/BLOB below 800 kB — compare like their contents.  The single `Next` call suffices here: the
+aligned walk skips equal children and descends into the first differing pair of (aligned) leaves
+(`walk1`), and comparing that pair is comparing the contents (`leafCmp_flatten`). -/
+theorem adaptive_compare_height1 (cs : Nat) (hs : 2 ≤ cs / addrLen) (x y : Bytes)
+    (hx : cs < x.length) (hy : cs < y.length)
+    (tx : topLevelOf cs x.length = 1) (ty : topLevelOf cs y.length = 1) :
+    compareAdaptive (.oob (build cs x [])) (.oob (build cs y [])) = some (bytesCompare x y) := by
+  have hc : 0 < cs := by
+    rcases Nat.eq_zero_or_pos cs with h | h
+    · subst h; simp at hs
+    · exact h
+  rw [build_large cs hs x hx, build_large cs hs y hy, tx, ty]
+  have fx := leafChunks_flatten cs hc (x.length + 1) x [] (by omega) (fun s hs => by simp at hs)
+  have fy := leafChunks_flatten cs hc (y.length + 1) y [] (by omega) (fun s hs => by simp at hs)
+  have ax := leafChunks_aligned cs hc (x.length + 1) x
+  have ay := leafChunks_aligned cs hc (y.length + 1) y
+  have lx : (leafChunks cs (x.length + 1) x []).length ≤ cs / addrLen := by
+    have := leaves_fit cs hs x (x.length + 1); rw [tx] at this; simpa using this
+  have ly : (leafChunks cs (y.length + 1) y []).length ≤ cs / addrLen := by
+    have := leaves_fit cs hs y (y.length + 1); rw [ty] at this; simpa using this
+  generalize leafChunks cs (x.length + 1) x [] = L at *
+  generalize leafChunks cs (y.length + 1) y [] = R at *
+  subst fx; subst fy
+  unfold compareAdaptive
+  simp only []
+  by_cases e : (⟨1, cs / addrLen, L⟩ : Tree) = ⟨1, cs / addrLen, R⟩
+  · have : L = R := by injection e
+    subst this
+    simp [bytesCompare_refl]
+  · simp only [e, decide_false, Bool.false_eq_true, if_false]
+    have w := walk1 (cs / addrLen) L R lx ly
+      (fuelFor (.oob (some ⟨1, cs / addrLen, L⟩)) + fuelFor (.oob (some ⟨1, cs / addrLen, R⟩))) 0
+      (by omega) (by omega) (by simp [fuelFor]; omega)
+    simp only [side1, List.drop_zero] at w
+    simp only [mkSide]
+    rw [← leafCmp_flatten cs hc L R ax ay]
+    cases hres : differNext (fuelFor (.oob (some ⟨1, cs / addrLen, L⟩)) + fuelFor (.oob (some ⟨1, cs / addrLen, R⟩)))
+        ⟨some ⟨1, cs / addrLen, L⟩, [⟨1, 0, 0⟩], none, false⟩ ⟨some ⟨1, cs / addrLen, R⟩, [⟨1, 0, 0⟩], none, false⟩ with
+    | eof => rw [hres] at w; simpa [resultOrd] using w
+    | pair lc rc => rw [hres] at w; simpa [resultOrd] using w
+    | outOfFuel => rw [hres] at w; simp [resultOrd] at w
+
+example : topLevelOf 4000 4001 = 1 ∧ topLevelOf 4000 799999 = 1 ∧ topLevelOf 4000 800000 = 2 := by decide
+
+/-- NOT PROVED for heights ≥ 2 (values of 800 000 bytes and more at the production chunk size):
+two out-of-band values whose trees have the same height compare like their contents.  The
+argument is the one of `adaptive_compare_height1` repeated per level (skip equal children, descend
+into the first differing pair; a child that is a strict prefix of its partner is the last child of
+every ancestor, so that side is exhausted and the other yields its next leaf); it holds in every
+run of the harness (chunk sizes 40/60/100 reach height 3). -/
 def adaptive_compare_samelevel_full : Prop :=
   ∀ cs (x y : Bytes), 2 ≤ cs / addrLen → topLevelOf cs x.length = topLevelOf cs y.length →
     cs < x.length → cs < y.length →
@@ -241,5 +311,43 @@ raised TARGET_ROW_SIZE) is compared with just the first leaf of an out-of-band v
 finding `compare-adaptive/inline-longer-than-chunk`. -/
 theorem adaptive_compare_inline_long_refuted :
     compareAdaptive (.inl (List.replicate 50 7)) (.oob (build 40 (List.replicate 50 7) [])) = some .gt := by decide
+
+/-! ## JSON: the leaf chunks concatenate to the serialized text -/
+
+/-- **json_chunks_concat**: whatever offsets the scanner stops at (non-decreasing, inside the text)
+and whatever the boundary predicate decides, the leaf blobs written by `processBuffer` + `Done`
+concatenate to the text from the chunk start on — for `SerializeJsonToAddr` (start 0): to the whole
+serialized document.  No byte is dropped or duplicated at a chunk boundary. -/
+theorem json_chunks_concat (boundary : Nat → Bytes → Bool) (text : Bytes) :
+    ∀ (locs : List Nat) (start k : Nat), start ≤ text.length → ScanOffsets text.length start locs →
+      (jsonChunks boundary text locs start k).flatten = text.drop start := by
+  intro locs
+  induction locs with
+  | nil => intro start k _ _; simp [jsonChunks]
+  | cons p ps ih =>
+    intro start k hs hsc
+    obtain ⟨h1, h2, h3⟩ := hsc
+    unfold jsonChunks
+    simp only []
+    by_cases hb : boundary k ((text.drop start).take (p - start)) = true
+    · rw [if_pos hb, List.flatten_cons, ih p (k + 1) h2 h3]
+      have : text.drop p = (text.drop start).drop (p - start) := by
+        rw [List.drop_drop]; congr 1; omega
+      rw [this, List.take_append_drop]
+    · rw [if_neg hb]
+      exact ih start (k + 1) hs (by
+        cases ps with
+        | nil => trivial
+        | cons q qs => exact ⟨Nat.le_trans h1 h3.1, h3.2.1, h3.2.2⟩)
+
+theorem json_chunks_concat_document (boundary : Nat → Bytes → Bool) (text : Bytes) (locs : List Nat)
+    (h : ScanOffsets text.length 0 locs) : (jsonChunks boundary text locs 0 0).flatten = text := by
+  simpa using json_chunks_concat boundary text locs 0 0 (Nat.zero_le _) h
+
+/-- non-vacuity: text `[1,2,3,4,5,6]`, scanner stops at 2, 4, 6, boundary at the second stop -/
+example : jsonChunks (fun k _ => k == 1) [1, 2, 3, 4, 5, 6] [2, 4, 6] 0 0 = [[1, 2, 3, 4], [5, 6]] ∧
+    ScanOffsets 6 0 [2, 4, 6] := by
+  refine ⟨by decide, ?_⟩
+  exact ⟨by omega, by omega, by omega, by omega, by omega, by omega, trivial⟩
 
 end DoltVerif.C16
